@@ -222,6 +222,20 @@ theorem OInv.step {g g' : GState} {e : Ev} (ho : OInv g) (hk : KInv g.s) (hi : H
     · rw [upd_ne _ _ e]
   | joinFail a h => obtain ⟨_, _, _, _, _, e'⟩ := joinFail_ok hs; rw [e']; exact ho.frame (fun _ => rfl) rfl (Nat.le_refl _) rfl
   | tlsFail t k gt => obtain ⟨_, _, _, _, _, e'⟩ := tlsFail_ok hs; rw [e']; exact ho.frame (fun _ => rfl) rfl (Nat.le_refl _) rfl
+  | storeFail t k r => obtain ⟨n, _, _, _, _, _, e'⟩ := storeFail_ok hs; rw [e']; exact ho.frame (fun _ => rfl) rfl (Nat.le_refl _) rfl
+  | startUnstored t =>
+    obtain ⟨h, _, _, _, _, _, _, e'⟩ := startUnstored_ok hs; rw [e']
+    refine ho.frame ?_ rfl (Nat.le_refl _) rfl
+    intro h'; simp only
+    by_cases e : h' = h
+    · subst e; simp [upd]
+    · rw [upd_ne _ _ e]
+  | retUnstored t h =>
+    obtain ⟨_, _, s1, hu, e'⟩ := retUnstored_ok hs; rw [e']
+    have r := unrefCore_own_userRefs hu
+    have r2 : s1.nH = g.s.nH ∧ s1.spin = g.s.spin := by
+      obtain ⟨_, ⟨_, rfl⟩ | ⟨_, rfl⟩⟩ := unrefCore_ok hu <;> exact ⟨rfl, rfl⟩
+    exact ho.frame r (unrefCore_thr hu).2 (by simp only; rw [r2.1]; exact Nat.le_refl _) r2.2
   | currentFail t =>
     obtain ⟨_, _, e'⟩ := currentFail_ok hs; rw [e']
     refine ho.frame ?_ rfl (Nat.le_succ _) rfl
